@@ -56,8 +56,19 @@ impl CCompilerImpl for Gcc {
         &self,
         arguments: &[OsString],
         cwd: &Path,
-        _env_vars: &[(OsString, OsString)],
+        env_vars: &[(OsString, OsString)],
     ) -> CompilerArguments<ParsedArguments> {
+        // With one of these variables set gcc writes (appends) dependency
+        // information to the file it names, both when preprocessing and when
+        // compiling. A cached result cannot reproduce that side effect.
+        for (name, var) in [
+            ("DEPENDENCIES_OUTPUT", "DEPENDENCIES_OUTPUT"),
+            ("SUNPRO_DEPENDENCIES", "SUNPRO_DEPENDENCIES"),
+        ] {
+            if env_vars.iter().any(|(k, _)| k == var) {
+                return CompilerArguments::CannotCache(name, None);
+            }
+        }
         parse_arguments(arguments, cwd, &ARGS[..], self.gplusplus, self.kind())
     }
 
